@@ -1,0 +1,5 @@
+//go:build !verif
+
+package flv
+
+func verifPoint(name string, obj interface{}) {}
